@@ -1,0 +1,27 @@
+// +build verif
+
+package termincommittee
+
+import (
+	"github.com/orbs-network/lean-helix-go/services/interfaces"
+	"github.com/orbs-network/lean-helix-go/spec/types/go/primitives"
+)
+
+// Verification hooks (build tag "verif" only): read-only views of term-internal state and an
+// exported wrapper of the package-private leader function.
+
+func VerifCalcLeader(view primitives.View, committeeMembers []interfaces.CommitteeMember) primitives.MemberId {
+	return calcLeaderOfViewAndCommittee(view, committeeMembers)
+}
+
+func (tic *TermInCommittee) VerifPreparedLocally() (primitives.View, bool) {
+	return tic.getPreparedLocally()
+}
+
+func (tic *TermInCommittee) VerifCommitted() bool {
+	return tic.committedBlock != nil
+}
+
+func (tic *TermInCommittee) VerifLatestViewThatProcessedVCMOrNVM() primitives.View {
+	return tic.latestViewThatProcessedVCMOrNVM
+}
